@@ -25,3 +25,15 @@ package common
 //@   ensures err == nil ==> forall(i, 0, n, p[i] == instream(old(ghost(rd)) + 3 + mathint(i)))
 //@   ensures err == nil ==> instream(old(ghost(rd)) + 3 + mathint(n)) == 255 && ghost(rd) == old(ghost(rd)) + mathint(n) + 4
 //@   ensures err != nil ==> n == 0
+//@
+//@ // ReadFrom strips the SOCKS5 UDP header from one received datagram dgram(0..dgramLen()).
+//@ // A well-formed IPv4 datagram whose payload fits the caller's buffer is delivered
+//@ // whole - including an empty payload, which is a legal datagram.
+//@ func (w *UDPAssociateWrapper) ReadFrom(p []byte) (n int, addr net.Addr, err error)
+//@   property C18 C10
+//@   mode int
+//@   requires w != nil && w.PacketConn != nil && len(p) <= 1048576
+//@   modifies p[..]
+//@   ensures !dgramErr() && dgramLen() >= 10 && dgram(0) == 0 && dgram(1) == 0 && dgram(2) == 0 && dgram(3) == 1 && dgramLen() - 10 <= mathint(len(p)) ==> err == nil && mathint(n) == dgramLen() - 10
+//@   ensures !dgramErr() && dgramLen() >= 10 && dgram(0) == 0 && dgram(1) == 0 && dgram(2) == 0 && dgram(3) == 1 && dgramLen() - 10 <= mathint(len(p)) ==> forall(i, 0, n, p[i] == dgram(10 + mathint(i)))
+//@   ensures err == nil ==> 0 <= n && n <= len(p)
